@@ -13,9 +13,9 @@ CHECKS = {
     'C03': ('symtex', 'find_all / find / count / attribute access / list and full-expression queries against an own traversal of the expression tree, with symbolic names and symbolic queries (name collisions chosen by the solver), every node as search root', 'DESIGN.md §7 C03'),
     'C04': ('symtex', 'contents / children / iteration / indexing / descendants / text / parent links / root all, checked at every node of every skeleton variant; text holes range over all Unicode whitespace', 'DESIGN.md §7 C04'),
     'C05': ('symtex', 'twin-hole documents: argument texts are symbolic so the solver itself chooses textually identical siblings; every target x edit compared with a string splice computed by node identity', 'DESIGN.md §7 C05'),
-    'C06': ('symtex', 'all strings up to the length bound over all of Unicode, both tolerance modes: outcome is a tree or a diagnostic error on every feasible path', 'DESIGN.md §7 C06'),
-    'C07': ('symtex', 'strict success implies an identical tolerant result, for all strings up to the length bound', 'DESIGN.md §7 C07'),
-    'C08': ('symtex', 'alignment oracle (only blank runs before { or [ may disappear) discharged by z3 on every path of every parseable string up to the length bound', 'DESIGN.md §7 C08'),
+    'C06': ('symtex', 'all strings up to the length bound over all of Unicode, every truncation / free-character substitution and insertion / deletion / transposition of base documents, 15 container kinds nested to depth 40, both tolerance modes: outcome is a tree or a diagnostic error on every feasible path; step budget + native watchdog for non-termination', 'DESIGN.md §7 C06'),
+    'C07': ('symtex', '(a) strict success implies an identical tolerant result (free strings, faulted documents); (b) every single deleted closer of skeleton documents: strict diagnoses, tolerant succeeds; (c) tolerant output = input plus closers, alignment condition discharged by z3', 'DESIGN.md §7 C07'),
+    'C08': ('symtex', 'alignment oracle (only blank runs before { or [ may disappear) discharged by z3 on every path: free strings up to the length bound, faulted documents, whitespace documents, malformed-but-parseable templates', 'DESIGN.md §7 C08'),
     'C09': ('symtex', 'command + bracket/brace groups with symbolic separators in 8 contexts: the set of attached groups, their exact text and the remaining text are compared with the one-line-break rule evaluated symbolically', 'DESIGN.md §7 C09'),
     'C10': ('symtex', 'comment payloads (free characters and hostile prefixes) in 14 contexts: tree equals the tree of the benign-payload document; 0..4 backslashes before %', 'DESIGN.md §7 C10'),
     'C11': ('symtex', 'verbatim bodies (free characters under the stated side conditions, hostile fragments) for built-in and symbolic user-chosen names: single raw leaf, nothing searchable, user name equals built-in behaviour', 'DESIGN.md §7 C11'),
@@ -23,7 +23,7 @@ CHECKS = {
     'C13': ('symtex', 'recorded positions of all nodes/tokens equal the offsets obtained by mirroring the serialisers (skeleton cover); char_pos_to_line on all strings over {letter, LF} up to the bound; search_regex offsets for a modelled regex family', 'DESIGN.md §7 C13'),
     'C14': ('symtex', 'rename to a symbolic name, string assignment with symbolic text and argument-list reordering on every target of skeleton documents: splice oracle by node identity, search deltas, and shape after re-parsing', 'DESIGN.md §7 C14'),
     'C15': ('symtex', 'all edit histories up to the depth bound on twin-hole documents against a reference document model with identity-based edits: serialised text, descendants, parent chains, search counts and the text view after every step, inserted material included', 'DESIGN.md §6.6, §7 C15'),
-    'C16': ('symtex', 're-parse of the serialised text gives identical text and shape, for every parseable string up to the length bound', 'DESIGN.md §7 C16'),
+    'C16': ('symtex', 're-parse of the serialised text gives identical text and shape: free strings up to the length bound, faulted documents, documents with symbolic blank runs between commands and arguments (blank lines, padded environment names), malformed templates', 'DESIGN.md §7 C16'),
     'C17': ('symtex', 'input forms (str / chunk lists / tuples / generator / file object) give identical outcomes on free strings and skeleton documents; the same input spaces are explored in fresh interpreters under several PYTHONHASHSEED values and z3 decides that the outcome partitions are equivalent; interleaved parses and edits of two documents do not influence each other', 'DESIGN.md §6.5, §7 C17',
             'solver-based symbolic execution (symtex) + z3 partition-equivalence queries between explorations run under different hash seeds'),
     'C18': ('symtex', 'all operation sequences up to the depth bound on free-standing and owner-attached TexArgs against a Python list of the same objects; group contents symbolic so duplicates are chosen by the solver', 'DESIGN.md §7 C18'),
